@@ -20,6 +20,7 @@ CHECKS = {
              "seeded values against the same operators: decoded value, four lengths, range, and the exact write "
              "footprint in a patterned window; signed 24/40/48/56-bit helpers likewise."
              " The boundary domain also contains every integer constant found in the sources of the tree under test (and its neighbours); the 128-bit external fixed-width API and the out-of-line 32-bit readers are exercised as well."
+             " Keys stepped in place by +-1..256 and 2^k steps are decoded again through every reader."
              " TaggedMath.tla: Apalache proves decode(encode(v)) = v, 'first byte announces the length' and the zig-zag bijection for ALL 2^64 values (a wrong variant must be refuted); ScalarModel!KeyBridge ties that arithmetic form to the byte-level definitions.",
         ref="DESIGN.md 4/C01", technique="TLA+ spec (ScalarBytes/ScalarModel) checked by TLC + TLC trace validation of the C API (ScalarTrace) + Apalache lemmas over the unbounded 64-bit domain"),
     "C04": dict(
@@ -28,6 +29,7 @@ CHECKS = {
              "and trace validation compares every byte the real encoders produce (all families, fixed/reversed forms, "
              "Elias gamma/delta bit strings, zig-zag) with the reference encoder: an oracle that is not the library."
              " Mined source constants join the domain (a threshold introduced by a change is exercised on both sides)."
+             " The bytes left behind by every in-place add (tagged and external, grow and no-grow) are compared with the reference encoding of the sum (a side run of the add driver judged for this property)."
              " TaggedMath.tla (Apalache): length monotonicity and round trip of the tagged format for all 2^64 values.",
         ref="DESIGN.md 4/C04", technique="TLA+ reference encoders checked by TLC + byte-exact TLC trace validation + Apalache lemmas over the unbounded 64-bit domain"),
     "C05": dict(
@@ -57,7 +59,9 @@ CHECKS = {
              "each is executed on the real object and BitmapTrace.tla carries the abstract set as state and compares "
              "return value, cardinality, emptiness, array export, iteration (order/duplicates), membership probes and "
              "operand immutability after every step; seeded 40-step histories cross 4096 repeatedly."
-             " A second family (algebra walks) pairs 14 left-operand constructions with every binary operation and 12 right operands of every container kind (array, bitmap, run), both argument orders; Optimize and the statistics' cardinality are observed too.",
+             " A second family (algebra walks) pairs 14 left-operand constructions with every binary operation and 12 right operands of every container kind (array, bitmap, run), both argument orders; Optimize and the statistics' cardinality are observed too."
+             " Further families: range walks (pairs of AddRange/RemoveRange around container and universe edges), list walks (AddMany/from-array constructions with duplicates and unsorted input), and the neutral operations Clone, serialise/deserialise, Optimize and export-as-runs, each of which must leave the abstract set unchanged."
+             " The serialised form of every Codec step is compared with the documented container layouts (conformance note).",
         ref="DESIGN.md 4/C08", technique="TLA+ refinement model (TLC exhaustive) + TLC-enumerated histories replayed on the code + stateful TLC trace validation"),
     "C09": dict(
         text="Packed.tla states the layout as a flat LSB-first bit string; PackedModel.tla enumerates the admissible "
@@ -67,7 +71,8 @@ CHECKS = {
              "period is written/incremented/halved in an isolation layout (all other bits compared) and a tight layout "
              "(guard page: only the element's slots may be touched); the sorted-layer sequences are replayed on the "
              "real arrays and judged on the decoded element sequence with the length carried as trace-spec state."
-             " Sorted walks are replayed under order-preserving embeddings (identity, across the top bit, flush against the maximum) in guard-page mappings; element indices around bit offsets 2^31, 2^32, 2^33 are exercised in a sparse 1 GiB array.",
+             " Sorted walks are replayed under order-preserving embeddings (identity, across the top bit, flush against the maximum) in guard-page mappings; element indices around bit offsets 2^31, 2^32, 2^33 are exercised in a sparse 1 GiB array."
+             " 103 configurations incl. declared maximum lengths 255/256/257 filled to the limit (fill walks), and the byte-count ('Bytes') entry points of every variant.",
         ref="DESIGN.md 4/C09", technique="TLA+ bit-string contract + TLC-enumerated configurations and operation sequences + TLC trace validation of memory images"),
     "C10": dict(
         text="Dimension.tla states the packed form, the width-pair byte, the header layout and the cell address; "
@@ -104,7 +109,7 @@ CHECKS = {
              "values, 64-bit blocks); the driver runs the real encoders/decoders on every leaf with the decoder reading "
              "an exact-size guard-page copy of exactly the bytes the encoder reported, and TLC validates every event "
              "(decoded sequence = input, bytes consumed, random access = full decode)."
-             " The scenario space includes progressions whose minimum/range sits on every tagged length class and on every mined source constant, zero-width 128-blocks, the marker coincidence at every position; every scenario also runs through the encoders' meta == NULL path, with output structs primed by a decoy encode, in the default, unoptimised and AVX2/AVX-512 (simd) builds; single-block BP128 codecs, RLE run iteration and dictionary Find/Lookup are bound as block / random-access readers. Wire.tla compares the bytes of FOR/RLE/delta/group/dict encodings (unclaimed conformance fact).",
+             " The scenario space includes progressions whose minimum/range sits on every tagged length class and on every mined source constant, zero-width 128-blocks, the marker coincidence at every position; every scenario also runs through the encoders' meta == NULL path, with output structs primed by a decoy encode, in the default, unoptimised and AVX2/AVX-512 (simd) builds; single-block BP128 codecs, RLE run iteration and dictionary Find/Lookup are bound as block / random-access readers. Wire.tla compares the bytes of FOR/PFOR/RLE/delta/group/dict/Elias-array/BP128 encodings and the adaptive envelope (unclaimed conformance fact).",
         ref="DESIGN.md 4/C02", technique="TLA+ register spec + TLC-enumerated scenarios + TLC trace validation with guard-page buffers"),
     "C03": dict(
         text="Each Encode event carries the value the real sizing function returned for that input and the bytes "
@@ -112,7 +117,9 @@ CHECKS = {
              "second encode into a destination of exactly the advertised size ending at a PROT_NONE page must not "
              "fault. Scenarios are the worst cases of each bound, enumerated by TLC (9-byte values, 64-bit blocks, "
              "outliers at the end, all-unique, sampler-misleading periodic data, every forced adaptive encoding)."
-             " Runs in the default and the simd build.",
+             " Runs in the default and the simd build."
+             " The float codec's size bound and exact-size destination are judged here as a side run of the float driver (FloatTrace.tla tags those conjuncts with this property), including encode faults; alternating-width shapes and minimum-on-class-boundary shapes feed the tagged-field codecs."
+             " Allocation failures: every allocating encoder (dictionary, PFOR, float, adaptive automatic and forced) writes into exactly the advertised size while each of its allocations fails in turn (side run of the fault-injection driver; AllocTrace.tla tags these conjuncts with this property).",
         ref="DESIGN.md 4/C03", technique="TLA+ size contract in the trace spec + TLC-enumerated worst-case scenarios + guard-page destinations"),
     "C06": dict(
         text="Adaptive encode/decode is held to the same register contract as the plain codecs, with the selector left "
@@ -120,14 +127,16 @@ CHECKS = {
              "TLC enumerates scenario leaves aimed at every branch of the documented decision tree (orders, duplicate "
              "patterns, bitmap range, outlier ratios around 5%, exact vs sampled uniqueness around 10000) and every "
              "forced encoding on its documented domain."
-             " Selector.tla specifies the analysis and the decision tree as exact functions and proves (ASSUME) that 58 deterministic recipes land on, just below and just above every threshold of the tree, reaching all 8 leaves; the recipes run automatically selected and forced. Encodings larger than 2^20 bytes are part of the scenario space.",
+             " Selector.tla specifies the analysis and the decision tree as exact functions and proves (ASSUME) that some 60 deterministic recipes (exact number in the evidence file) land on, just below and just above every threshold of the tree, reaching all 8 leaves; the recipes run automatically selected and forced. Encodings larger than 2^20 bytes are part of the scenario space."
+             " Half-step progressions (steps of 2^62/2^63) feed the delta paths; duplicates beyond the 10000-element sampling window (n = 10010, 20001) are threshold recipes.",
         ref="DESIGN.md 4/C06", technique="TLA+ register spec with nondeterministic selector + TLC-enumerated decision-tree scenarios + trace validation"),
     "C13": dict(
         text="For every capacity-taking decoder the driver decodes valid encodings into an output array of exactly "
              "`capacity` elements ending at a PROT_NONE page, for capacities 0, 1, n/2, n-1 and block boundaries; the "
              "library's own heap blocks are end-fenced too (allocator shim) so internal scratch overruns fault. The "
              "trace spec accepts only: no fault, and result 0 or a correct prefix of at most `capacity` elements."
-             " Short arrays get every capacity 0..n-1.",
+             " Short arrays get every capacity 0..n."
+             " Capacity = element count is run for every reader; the recorded fault address tells an output overrun (this property) from an input over-read (C02).",
         ref="DESIGN.md 4/C13", technique="TLA+ capacity contract + TLC-enumerated scenarios + trace validation with guard pages and fenced heap"),
     "C14": dict(
         text="HostileGen.tla builds hostile inputs from the documented wire layouts (every truncation point of valid "
@@ -143,7 +152,8 @@ CHECKS = {
              "truth computed in TLA+ from the input values (count, min, max, range, offset width, run count, sum of "
              "Elias code lengths, block count, last-block size) or from the stream header (PFOR width byte, adaptive "
              "type byte, bytes written)."
-             " Analysis entry points (FOR/RLE analyse, ComputeWidth, BP128 MaxBitWidth) and per-field group widths are compared as well; default and simd builds.",
+             " Analysis entry points (FOR/RLE analyse, ComputeWidth, BP128 MaxBitWidth) and per-field group widths are compared as well; default and simd builds."
+             " The reported element count must equal the number of elements a decode of the produced bytes yields (decode-once conjunct); the float decoder's consumed-byte report is judged by a side run of the float driver.",
         ref="DESIGN.md 4/C16", technique="TLA+ ground-truth functions (Limbs/StoreTrace) + trace validation of reported metadata"),
     "C15": dict(
         text="Purity.tla models the hidden context (stack residue, heap residue, previous call) and enumerates every "
@@ -153,7 +163,9 @@ CHECKS = {
              "representative calls, in two processes and in the optimised and unoptimised tiers; PurityTrace.tla keeps "
              "a memo of the first result per call class and rejects any later execution whose bytes, length or decoded "
              "values differ; thorough adds valgrind memcheck (Uninit events)."
-             " Every reader (bulk, random access, block) of the produced bytes runs under the schedule's paints as well; previous-call kinds include a call on the SAME input buffer with other contents; heap residue reaches the library unmasked (real allocator, blocks of the sizes the call will request, allocation fills via M_PERTURB); call classes cover short, long and every byte-width class of inputs and the float codec.",
+             " Every reader (bulk, random access, block) of the produced bytes runs under the schedule's paints as well; previous-call kinds include a call on the SAME input buffer with other contents; heap residue reaches the library unmasked (real allocator, blocks of the sizes the call will request, allocation fills via M_PERTURB); call classes cover short, long and every byte-width class of inputs and the float codec."
+             " Each encoder call class also runs with meta == NULL (a second memo class): the optional output struct must not be a hidden input."
+             " Twelve set-object histories (one per container conversion, set algebra, re-decoded objects, bulk add, optimise) are call classes too: serialisation and exported members must not depend on heap residue or earlier histories.",
         ref="DESIGN.md 4/C15", technique="TLA+ context model + TLC-enumerated perturbation schedules + stateful (memo) TLC trace validation"),
     "C17": dict(
         text="Threads.tla checks over all interleavings of Begin/End steps of 3 threads that with per-call scratch every "
@@ -162,7 +174,9 @@ CHECKS = {
              "(own sequence numbers, no cross-thread ordering assumed) is validated against the sequential results by "
              "ThreadsTrace.tla; the same driver under ThreadSanitizer turns any race report into a Race event, which "
              "is not an action of the specification."
-             " Every codec's first call in the process is made by all threads at once behind a spin barrier (cold start; 24/200 extra processes), the sequential reference is computed after the threads; the threads' packed arrays and bitstreams lie back to back in one slab.",
+             " Every codec's first call in the process is made by all threads at once behind a spin barrier (cold start; 24/200 extra processes), the sequential reference is computed after the threads; the threads' packed arrays and bitstreams lie back to back in one slab."
+             " Reader threads decode shared encodings while writers encode into private buffers; shared bitmap objects are queried concurrently; a driver crash or hang under concurrency is re-run single-threaded and, if it then completes, becomes a Crash event (not an action of the specification)."
+             " Scalar varints of every width lie back to back across the threads' regions and are rewritten / stepped in place (tagged and external, no-grow) by their owners.",
         ref="DESIGN.md 4/C17", technique="TLA+ interleaving model (TLC) + per-thread TLC trace validation + ThreadSanitizer reports as trace events"),
     "C18": dict(
         text="AllocModel.tla explores object lifetimes with a fault at every allocation step of every call and checks "
